@@ -10,7 +10,23 @@ def obligations(tier):
         obs.append(dict(name=nm + ("" if wl is None else "-k%d" % wl), harness="rd.c", entry=ent, defs=["MAXLEN=%d" % ml] + ([] if wl is None else ["WLEN=%d" % wl]), unwind=12, backends=["cadical"], timeout=1800 if T else 280, claim=what,
                         bounds="buffer sizes 1, 4, 8 with every bufpos <= datalen <= buflen; wait length k = %s (one obligation per k; k > 2x buffer forces growth to k)" % ("symbolic" if wl is None else wl),
                         stubs=["network_read/network_read_cancel, events_immediate_register/cancel -> recording models"]))
+    # ---- writer (netbuf_write.c)
+    to = 1800 if T else 280
+    wst = ["memcpy in netbuf_write_write -> single-observation copy (one arbitrary index, room for all n checked)", "network_write/network_write_cancel -> recording models of network.h's contract (non-zero length asserted by the real one)", "setsockopt -> arbitrary result"]
+    for wl in [0, 1, 5, 4095, 4096, 4097] + ([2, 4000, 5001, 9000] if T else []):
+      for big in (0, 1):
+        obs.append(dict(name="writer-write-len%d%s" % (wl, "-lastbig" if big else ""), harness="wr.c", entry="h_write", defs=["WL=%d" % wl, "LASTBIG=%d" % big], unwind=6, flags=["--arrays-uf-always"], backends=["cadical"], timeout=to,
+                        claim="netbuf_write_write(len=%d) from an arbitrary writer state (0/1 in flight x 0..2 queued, failed or not): pending stream' = pending stream || data, at most one request in flight, a launch hands network_write the whole head buffer with minwrite = its length and never 0 bytes, writes after a failure are discarded silently" % wl,
+                        bounds="queue shapes {0,1} in flight x {0,1,2} queued, pre-state buffers of 8 bytes (last one 12 if lastbig; the code is parametric in an existing buffer's size) holding 1..buflen bytes, new buffers as the code sizes them (4096 / len); write length %d" % wl, stubs=wst))
+    for wl, cl in [(0, 0), (5, 0), (5, 3), (5, 5), (4097, 4097), (4097, 1)] + ([(4096, 4096), (100, 99)] if T else []):
+        obs.append(dict(name="writer-reserve%d-consume%d" % (wl, cl), harness="wr.c", entry="h_reserve", defs=["WL=%d" % wl, "CL=%d" % cl, "LASTBIG=0"], unwind=6, flags=["--arrays-uf-always"], backends=["cadical"], timeout=to,
+                        claim="netbuf_write_reserve(%d) returns room for that many bytes without sending; netbuf_write_consume(%d) appends exactly the bytes written there and launches as write does" % (wl, cl),
+                        bounds="same queue shapes", stubs=wst))
+    obs.append(dict(name="writer-complete", harness="wr.c", entry="h_complete", defs=["LASTBIG=0"], unwind=6, backends=["cadical"], timeout=to,
+                    claim="completion of the in-flight buffer with any n in [-1, len]: n == len releases it and launches the next head buffer in full; anything else marks the writer failed, fires the failure callback exactly once and sends nothing further", bounds="0..2 queued buffers", stubs=wst))
+    obs.append(dict(name="writer-init-free", harness="wr.c", entry="h_free", defs=["LASTBIG=0"], unwind=6, backends=["cadical"], timeout=to, flags=["--memory-leak-check"],
+                    claim="init gives an idle empty writer; free cancels the in-flight request once and releases every buffer (leak check)", bounds="same queue shapes", stubs=wst))
     return obs
 TRUSTED = ["CBMC 6.11 C semantics", "cadical", "C06 for what network_read reports"]
-ASSUMPTIONS = ["the buffered WRITER (netbuf_write.c) has no obligation: that half of C07 is NOT decided here", "TLS variant (netbuf_ssl) outside the claim"]
+ASSUMPTIONS = ["TLS variant (netbuf_ssl) outside the claim"]
 EXPLANATION = ""
